@@ -102,6 +102,10 @@ func C07(ctx *core.Ctx) int {
 			}
 			if cc.T.Stage != "" {
 				note(pc, l, cc.T.Stage)
+				if cc.T.Stage == "timeout" {
+					st.blockers[l+": toolchain or driver process hit its wall-clock limit (not a verdict)"]++
+					continue
+				}
 				if cc.T.Stage == "driver" {
 					// the emitted code builds but the harness's driver for it does not: a limitation of the harness, never a verdict
 					st.blockers[l+": HARNESS driver does not build: "+buildSig(l, cc.T.BuildLog)]++
@@ -134,7 +138,7 @@ func C07(ctx *core.Ctx) int {
 			}
 			for i, m := range pc.Msgs {
 				if o := cc.T.Out[fmt.Sprintf("DEC:%s.s0", m.ID)]; o != nil && o.Kind == "DEC" {
-					if d := pc.R.Compare(pc.R.Root, pc.WireVals[i], o.Tree); d != nil && d.Class == "member missing" {
+					if d := pc.R.Compare(pc.R.Root, pc.WireVals[i], o.Tree()); d != nil && d.Class == "member missing" {
 						ctx.Report(fmt.Sprintf("%s|declared %s field has no member in the emitted type", l, d.Where()),
 							fmt.Sprintf("program %s (%s): %s\n%s", pc.Prog.Name, l, d.String(), core.Trunc(pc.Text, 600)), rep)
 						break
@@ -304,6 +308,46 @@ func C17(ctx *core.Ctx) int {
 		}
 		mu.Unlock()
 	})
+	// the CLI's way as well: one model, generators in fixed order; a target whose files then differ from
+	// the fresh-parse ones gets a second cell (generator interference reaches the emitted tests too)
+	{
+		type pj struct{ p *dsl.Program }
+		var uniqP []*dsl.Program
+		seenP := map[string]bool{}
+		for _, c := range cells {
+			if !seenP[c.p.Name] {
+				seenP[c.p.Name] = true
+				uniqP = append(uniqP, c.p)
+			}
+		}
+		fresh := map[string]*cellT{}
+		for _, c := range cells {
+			fresh[c.p.Name+"|"+c.lang] = c
+		}
+		core.Parallel(len(uniqP), func(i int) {
+			p := uniqP[i]
+			text := p.Text()
+			m, diags, err := parseText(ctx, text)
+			if err != nil || len(diags) > 0 || api.Cyclic(m) {
+				return
+			}
+			for _, l := range api.Langs {
+				files, err := api.Generate(m, l)
+				mu.Lock()
+				f := fresh[p.Name+"|"+l]
+				mu.Unlock()
+				if err != nil || f == nil || f.t == nil || treeString(files) == treeString(f.t.Files) {
+					continue
+				}
+				c := &cellT{p: p, text: text, lang: l + SeqSuffix}
+				c.t = &targets.Cell{Name: p.Name + SeqSuffix, Lang: l, Files: files, Meta: optMeta(p), R: f.t.R}
+				mu.Lock()
+				cells = append(cells, c)
+				byLang[l] = append(byLang[l], c.t)
+				mu.Unlock()
+			}
+		})
+	}
 	var wg sync.WaitGroup
 	for _, l := range langs {
 		if t, ok := targets.All[l]; ok {
@@ -322,6 +366,9 @@ func C17(ctx *core.Ctx) int {
 		}
 		rep := map[string]any{"name": c.p.Name, "lang": c.lang, "text": c.text}
 		ran += c.t.TestRan
+		if !c.t.TestOK && strings.Contains(c.t.TestLog, "timeout after") {
+			continue // wall-clock limit of the runner process: not a verdict
+		}
 		switch {
 		case c.t.TestOK:
 			passed++
@@ -364,13 +411,40 @@ func C17(ctx *core.Ctx) int {
 	return ctx.Finish("exploration", cov)
 }
 
+var reFailedTests = []*regexp.Regexp{
+	regexp.MustCompile(`(?m)^\[ DONE \] (\S+) FAILED`),                                              // gtest stand-in
+	regexp.MustCompile(`(?m)^FAIL (?:[a-z0-9_]+\.)*([A-Za-z_0-9]+\.[A-Za-z_0-9]+) (\S+?):?(?: |$)`), // JUnit stand-in: class.method + throwable
+	regexp.MustCompile(`(?m)^\s*--- FAIL: (\S+)`),                                                   // go test
+	regexp.MustCompile(`(?m)^(\w+) \((?:\w+\.)*(\w+)\.\w+\) \.\.\. (?:FAIL|ERROR)`),                 // python unittest -v
+	regexp.MustCompile(`(?m)^test (\S+) \.\.\. FAILED`),                                             // rustc --test
+}
+
+// testSig names what went wrong with the emitted self-tests: the failing tests (when tests ran) or
+// the first toolchain diagnostic (when they did not build).
 func testSig(lang, log string) string {
-	// prefer the first assertion / error line
-	for _, l := range strings.Split(log, "\n") {
-		ll := strings.ToLower(l)
-		if strings.Contains(ll, "error") || strings.Contains(ll, "fail") || strings.Contains(ll, "panic") || strings.Contains(ll, "exception") || strings.Contains(ll, "undefined") || strings.Contains(ll, "cannot") {
-			return normLog(l)
+	var failed []string
+	for _, re := range reFailedTests {
+		for _, m := range re.FindAllStringSubmatch(log, -1) {
+			f := m[1]
+			if len(m) > 2 && m[2] != "" {
+				f += " " + m[2]
+			}
+			failed = append(failed, f)
 		}
 	}
-	return buildSig(lang, log)
+	if len(failed) > 0 {
+		failed = uniq(failed)
+		if len(failed) > 4 {
+			failed = append(failed[:4], "...")
+		}
+		return "tests fail: " + strings.Join(failed, ", ")
+	}
+	var rest []string
+	for _, l := range strings.Split(log, "\n") {
+		if strings.HasPrefix(l, "build of ") || strings.TrimSpace(l) == "" {
+			continue
+		}
+		rest = append(rest, l)
+	}
+	return "does not build: " + buildSig(lang, strings.Join(rest, "\n"))
 }
